@@ -6,6 +6,7 @@ import (
 	"errors"
 
 	"github.com/NethermindEth/juno/core/felt"
+	"github.com/NethermindEth/juno/core/trie2/triedb"
 	"github.com/NethermindEth/juno/db"
 	"github.com/NethermindEth/juno/db/memory"
 	"github.com/NethermindEth/juno/zzverif/vx"
@@ -20,7 +21,6 @@ import (
 func VxC03ViewBeforeDeployment() {
 	vx.Bound("one contract deployed at a symbolic 64-bit height d with a symbolic class hash (nonce 0), 1..2 later writes (storage slot | nonce | class replacement) at symbolic heights > d; queried height symbolic; stateHistory wrapper of the new backend")
 	d := memory.New()
-	sr := vxReaderOn(d)
 	addr := felt.NewFromUint64[felt.Felt](0x1000)
 	slot := felt.NewFromUint64[felt.Felt](0x20)
 	dep := vx.U64("deployed-at")
@@ -61,7 +61,8 @@ func VxC03ViewBeforeDeployment() {
 	vx.Assert(WriteContract(d, addr, headNonce, headClass, dep) == nil, "setup")
 
 	q := vx.U64("queried")
-	h := stateHistory{blockNum: q, state: sr}
+	h, herr := NewStateHistory(q, &felt.Zero, NewStateDB(d, triedb.New(d, nil)))
+	vx.Assert(herr == nil, "history-view-opens")
 	var got felt.Felt
 	var err error
 	switch kind {
